@@ -212,7 +212,7 @@ const kitchenSink = `title: Start
 <<declare $n = 1.5>>
 <<declare $b = true>>
 <<declare $s = "txt">>
-K1 {round($n)} {round_places(1.23456, 2)} {round_places(7, 16)} {round_places(12345, -2)} {floor($n)} {ceil($n)} {inc($n)} {dec($n)} {decimal($n)} {integer($n)}
+K1 {round($n)} {round_places(1.23456, 2)} {round_places(1.23456, 17)} {round_places(1.23456, 16)} {round_places(12345, -2)} {round_places(12345.678, -15)} {floor($n)} {ceil($n)} {inc($n)} {dec($n)} {decimal($n)} {integer($n)}
 K2 {string($n)} {string($b)} {number("2.5")} {bool("true")} {dice(6)} {random_range(1, 3)} {random() < 1} {visited("Start")} {visited_count("Side")}
 K3 [b]bold[/b] [wave a=1 s="q r"]w[/wave] [nomarkup][x] raw [/b][/nomarkup] [select value=b a="A" b="B" /] [plural value=2 one="cat" other="% cats" /] [ordinal value=3 one="%st" two="%nd" few="%rd" other="%th" /] \[esc\] [a/] Mae: tail
 -> O1 plain #tag1
